@@ -286,6 +286,18 @@ class PathView:
         if term[0] == 'adt': return term[2]
         for f, _, _ in self.facts:
             if f[0] == 'is' and f[1] == term: return f[2]
+        # implied by a disjunctive fact (merged outcomes of a boolean helper such as `a.is_some() == b.is_some()`): every alternative
+        # that the path's direct facts do not contradict fixes the same variant
+        direct = None
+        for f, _, _ in self.facts:
+            if f[0] != 'or': continue
+            if direct is None: direct = {g[1]: g[2] for g, _, _ in self.facts if g[0] == 'is'}
+            live = [alt for alt in f[1] if not any(g[0] == 'is' and direct.get(g[1], g[2]) != g[2] for g in alt)]
+            vs = set()
+            for alt in live:
+                v = [g[2] for g in alt if g[0] == 'is' and g[1] == term]
+                vs.add(v[0] if v else None)
+            if live and len(vs) == 1 and None not in vs: return vs.pop()
         return None
 
     @property
